@@ -155,7 +155,15 @@ class Prop(BaseProp):
                 target = inp_dir
             # extra argument lists
             scfg = os.path.join(sb, "cfg", "extra.yaml")
-            fsrun.write_yaml(scfg, {"rst": {"file_extensions_in_titles": True}})
+            scfg_data = {"rst": {"file_extensions_in_titles": True}}
+            if idx // 11 % 4 == 2:
+                # a settings file with a logging section of its own that does not mention CMinx's logger
+                # (the section is Python's logging dictConfig itself and replaces the default one as a whole)
+                scfg_data["logging"] = {"version": 1, "disable_existing_loggers": True,
+                                        "handlers": {"null": {"class": "logging.NullHandler"}},
+                                        "root": {"handlers": ["null"], "level": "CRITICAL"}}
+                res.count("settings_files_with_own_logging_section")
+            fsrun.write_yaml(scfg, scfg_data)
             pool = [[], ["-p", "Pfx"], ["-e", "e*.cmake"], ["-s", scfg], ["-p", "My Prefix"], ["-e", "a*", "-e", "b.cmake"],
                     ["-p", "P", "-s", scfg, "-e", "top.cmake"], ["-p", "x(y)"], ["-p", "$dollar"], ["-e", "*.md", "-p", "a b c"],
                     ["-e", "sub/"], ["-e", "a*/", "-p", "x/"], ["-p", "back\\slash"], ["-e", "e*/", "-e", "zz/"], ["-p", "trailing "]]
